@@ -96,7 +96,7 @@ func stringReqs(s []byte, html bool, ctxs []strCtx) (reqs []string, outs [][]byt
 }
 
 func judgeString(s []byte, html bool, ctxs []strCtx, out []byte, docs [][]byte, ans []string) {
-	rep.AddEval(1, 1)
+	rep.AddEval(1, distinctCase([]byte("string"), s, []byte(fmt.Sprint(html, len(ctxs)))))
 	extra := map[string]any{"string_hex": lib.HexF(s), "string": fmt.Sprintf("%q", string(s)), "html_safe": html, "written": fmt.Sprintf("%q", string(out))}
 	if want, _ := lib.UnhexF(ans[0]); !bytes.Equal(want, out) {
 		add("disagreement", "model:AppendSENString", "model and implementation write different bytes: model "+fmt.Sprintf("%q", string(want)), s, extra)
@@ -532,11 +532,11 @@ func treeJob(items []treeItem) job {
 }
 
 func judgeTree(d *lib.Driver, v any, o wopts) error {
-	rep.AddEval(1, 1)
-	rep.Count("writer."+o.writer, 1)
-	good, out, oc, want := roundTrips(v, o)
 	var sb strings.Builder
 	canonIn(&sb, v)
+	rep.AddEval(1, distinctCase([]byte("tree"), []byte(sb.String()), []byte(o.String())))
+	rep.Count("writer."+o.writer, 1)
+	good, out, oc, want := roundTrips(v, o)
 	extra := map[string]any{"tree": sb.String(), "options": o.String(), "written": fmt.Sprintf("%q", string(trunc(out))), "parsed": oc.String()}
 	if want != nil {
 		extra["expected"] = render(want)
@@ -961,5 +961,5 @@ func runC10() {
 		}
 		tflush()
 	})
-	rep.Rule = "strings: AppendSENString then sen.Parser.Parse in value, key and top-level position, expected: the same string (invalid UTF-8 replaced by U+FFFD); trees: seeded random trees (all kinds; strings from a pool of reserved words, number-like and sign spellings, operators, delimiters, quotes, comment markers, control bytes, invalid UTF-8, long strings; int64 extremes; finite float shapes), the pool through every writer, deep nesting past the indentation clamps; each tree x options (indent, tab, Sort, OmitNil, OmitEmpty, HTML-safe, WriteLimit for the sen writers; width, depth, align and — where they have nothing to omit — OmitNil/OmitEmpty for the pretty writers) through sen.String, sen.Bytes, sen.Write, pretty.SEN, pretty.WriteSEN; an exhaustive omission family (\"\", [], {}, nil members x every option combination); oracle: sen.Parse(text) equals the tree (strings stay strings, numbers by value, keys exact, members omitted per OmitNil/OmitEmpty); tie: model writer bytes == Go bytes (AppendSENString always; the tight writer when the member order is determined), model parser outcome == sen.Parse outcome on every written text"
+	rep.Rule = "strings: AppendSENString then sen.Parser.Parse in value, key and top-level position, expected: the same string (invalid UTF-8 replaced by U+FFFD); trees: seeded random trees (all kinds; strings from a pool of reserved words, number-like and sign spellings, operators, delimiters, quotes, comment markers, control bytes, invalid UTF-8, long strings; int64 extremes; finite float shapes), the pool through every writer, deep nesting past the indentation clamps; each tree x options (indent, tab, Sort, OmitNil, OmitEmpty, HTML-safe, WriteLimit for the sen writers; width, depth, align and — where they have nothing to omit — OmitNil/OmitEmpty for the pretty writers) through sen.String, sen.Bytes, sen.Write, pretty.SEN, pretty.WriteSEN; an exhaustive omission family (\"\", [], {}, nil members x every option combination); oracle: sen.Parse(text) equals the tree (strings stay strings, numbers by value, keys exact, members omitted per OmitNil/OmitEmpty); tie: model writer bytes == Go bytes (AppendSENString always; the tight writer when the member order is determined), model parser outcome == sen.Parse outcome on every written text; distinct_nontrivial counts the distinct (string, HTML-safe, positions) and (tree, options) cases by a 64-bit hash folded into a bit set (a lower bound: a collision counts as a duplicate)"
 }
